@@ -7,7 +7,7 @@ D=/dev/shm/pykmip-mut-$$
 mkdir -p "$D"
 trap 'rm -rf "$D"' EXIT
 cp -r /repo/kmip "$D/kmip"
-( cd "$D" && patch -p1 -s < "$P" )
+python3 "$(dirname "$(readlink -f "$0")")/apply_mutant.py" "$D" "$P"
 find "$D" -name '__pycache__' -prune -exec rm -rf {} + 2>/dev/null || true
 set +e
 VERIF_REPO="$D" "$(dirname "$(readlink -f "$0")")/../check" "$@"
